@@ -469,6 +469,9 @@ def patch_rank(ctx, lib, gl, names=None, kinds=("mass", "thermal-K", "elastic-K"
 
 
 def run(ctx):
+    from . import e2e_rules as _e2e
+
+    ctx.attempt(_e2e.operators_rule, ctx, 'R2.E1')
     from .c12 import coefficient_table_rule as _coefficient_table_rule
 
     ctx.attempt(_coefficient_table_rule, ctx, "R2.11")
